@@ -203,6 +203,22 @@ CONFIG["C10"] = {
                 "the model's urlPath is the string handed to http.NewRequest; what net/url makes of it afterwards is stdlib (see known finding F10a)"],
 }
 
+CONFIG["C01"] = {
+    "quick_n": 30000, "thorough_n": 250000, "thorough_seeds": 4, "search_s": 60,
+    "model_fn": "dispatch (path.Join, template->key conversion, per-method C05 tables, path.Clean, PathUnescape, decodeCompositParams, 404/405)",
+    "go_entry": "middleware.NewRouter over middleware.NewContext(spec, untyped API) — DefaultRouter, defaultRouter.Lookup/OtherMethods",
+    "rule": "generated swagger 2.0 descriptions (1-7 operations, 8-19 in a quarter of the thorough tables; templates of 1-4 segments over static segments and {name} placeholders with shared prefixes and static/parameterised siblings; the same template under several methods; base paths /, '', /api, /api/, /v1/base, /a; 1 description in 6 with composite segments, ':'/'*' in static text; 1 template in 40 with a trailing slash), requests parsed by net/http from a raw request line: instantiations with values {1 42 kitty a%2Fb 50%25 %zz : * %23 ; a=b %C3%A9 . .. '' x.json a-b a--b mine a:b}, trailing/duplicate slashes, dot segments, random bytes, mutated paths; methods in any letter case. Non-trivial: a valid request against a description without duplicate converted keys; distinct = distinct input lines.",
+    "trusted_base": COMMON_TB + [
+        "net/http request-line parsing and URL.EscapedPath; go-openapi/analysis Operations(); regexp semantics of {(.+?)}([^/]*) (hand-transcribed scanner `convert`)",
+        "denco's double array (see C05); path.Clean/Join via RtVerif/Base/GoPath.lean (validated by C20's stream G)",
+    ],
+    "assumptions": ["every operation of the description has a handler registered under its method and its template as written (what generated servers do)",
+                    "two operations whose converted keys coincide under one method (e.g. /p/{a}.json and /p/{a}.xml) are resolved by Go's map iteration order: such descriptions are tagged ~dupkeys and not judged",
+                    "a description whose table denco.Build refuses (duplicate placeholder names, '#') is used half-built because the error is ignored (F01b, documented): tagged ~build-refused and not judged"],
+    "partial": ["composite segments ({a}-{b}, {id}.json): the choice of route is judged and proved sound, the splitting of values is covered by the correspondence only",
+                "the bridge from the converted trie key to the segment-wise reading of a template (Spec `instantiates`) is checked per case by the driver, not yet a theorem"],
+}
+
 # properties not claimed (with the reason) and hook commits in /repo (none so far: no hooks needed)
 NOT_APPLICABLE = {}
 HOOK_COMMITS = []
